@@ -13,6 +13,7 @@ mod rpcc;
 mod query;
 mod service;
 mod glue;
+mod e2e;
 
 fn main() {
     let args: Vec<String> = std::env::args().skip(1).collect();
@@ -44,6 +45,7 @@ fn main() {
         "query" => query::main(&args[1..]),
         "service" => service::main(&args[1..]),
         "glue" => glue::main(&args[1..]),
+        "e2e" => e2e::main(&args[1..]),
         x => {
             eprintln!("unknown component {}", x);
             std::process::exit(2);
